@@ -12,6 +12,7 @@
 import ClientGoVerif.Proofs.MvccInv
 import ClientGoVerif.Proofs.MvccReach
 import ClientGoVerif.Proofs.MvccTemporal
+import ClientGoVerif.Proofs.MvccExec
 namespace CGV.Props.C12
 open CGV CGV.Mvcc
 
@@ -159,6 +160,13 @@ theorem every_command_refines_key_steps (s : Store) (c : Cmd) (hs : SInv s) (hok
     KvSorted (c.run s).kv ∧ ∀ k, ∃ lab, c.labels k lab ∧ KStep (getEntry s.kv k) lab (getEntry (c.run s).kv k) :=
   run_refines s c hs hok
 
+/-- the tie between the theorems and what is run: `MvccProto.exec`, the step function of the compiled driver that the
+    differential compares with mocktikv line by line, leaves the store unchanged (reads, dumps) or applies exactly one
+    `Cmd` — so every theorem about `Cmd.run` / `runAll` / `Reachable` is a theorem about the driver's states -/
+theorem driver_step_is_a_command (s : Store) (w : List String) (s' : Store) (out : String)
+    (h : MvccProto.exec s w = some (s', out)) : s' = s ∨ ∃ c : Cmd, s' = c.run s :=
+  exec_state s w s' out h
+
 /-- in every reachable state a transaction has at most one record on a key -/
 theorem reachable_one_record_per_txn (s : Store) (h : Reachable s) (k : Bytes) : Uniq (getEntry s.kv k).writes := h.uniq k
 
@@ -205,6 +213,20 @@ theorem pessimistic_over_own_prewrite_refused (s : Store) (wf : WaitFor) (r : PL
 /-- committing a leftover pessimistic lock changes no data: the lock goes, no record is written -/
 theorem commit_pessimistic_lock_no_data (l : Lock) (k : Bytes) (T C : Nat) (h : l.op = .pessimisticLock) :
     commitLock l k T C = [Act.delLock k] := by simp [commitLock, h]
+
+/-- a prewrite over the transaction's own pessimistic lock is not re-checked for write conflicts at its start ts: the
+    only conflict-value call made is the one at for-update ts +∞ (which keeps the rollback-marker and assertion checks),
+    whatever newer commits of other transactions the key carries -/
+theorem prewrite_over_own_pessimistic_lock_checks_at_infinity (s : Store) (r : PrewriteReq) (m : Mutation) (act : PAction)
+    (l : Lock) (hl : (getEntry s.kv m.key).lock = some l) (hs : l.startTS = r.startTS) (hp : l.op = .pessimisticLock) :
+    prewriteMutation s r m act =
+      match checkConflictValue ⟨m, maxU64, r.startTS, false, r.assertOn, false, false⟩ (getEntry s.kv m.key).writes with
+      | .error err => .error err
+      | .ok _ => .ok [Act.putLock m.key ⟨r.startTS, r.primary, m.value, if m.op == .insert then Op.put else m.op,
+          if r.ttl < l.ttl then l.ttl else r.ttl, 0, r.txnSize,
+          if r.primary == m.key then (if r.minCommitTS < l.minCommitTS then l.minCommitTS else r.minCommitTS) else 0⟩] := by
+  simp only [prewriteMutation, hl, hs, hp, bne_self_eq_false, Bool.false_eq_true, if_false]
+  cases checkConflictValue _ (getEntry s.kv m.key).writes <;> rfl
 
 /-! ## non-vacuity: the hypotheses are satisfiable by a non-trivial store -/
 example : Desc [⟨.put, 10, 20, [1]⟩, ⟨.rollback, 5, 5, []⟩] ∧
